@@ -102,6 +102,24 @@ theorem transfer2 (p : Prog) (hf : WF p.fmt) (kinds : List Bool) (hk : kindsOf p
         exact ⟨(rv_float rv1).2, (rv_float rv2).2⟩
 
 
+/-- one float output -/
+theorem transfer1 (p : Prog) (hf : WF p.fmt) (kinds : List Bool) (hk : kindsOf p.nodes [] = some kinds)
+    (lib : Libm) (ins : List Nat) (insQ : List ℚ) (hins : InsRel p.fmt ins insQ) (env : Array Nat)
+    (he : evalNodes p.fmt lib ins p.nodes #[] = some env)
+    (hfin : ∀ (i : Nat) (v : Nat), env[i]? = some v → kinds[i]? = some false → isFiniteBits p.fmt v = true)
+    (o : Nat) (hpo : p.outs = [o]) (hko : kinds[o]? = some false)
+    (h : Nat) (ho : p.eval lib ins = some [h]) (a : ℚ) (hq : p.evalQ (rne (qf p.fmt hf.hp)) insQ = some [a]) :
+    isFiniteBits p.fmt h = true ∧ toQ p.fmt h = some a := by
+  obtain ⟨qs, h1, h2⟩ := refines p hf kinds hk lib ins insQ hins env he hfin [h] ho
+  rw [hq] at h1; cases h1
+  rw [hpo] at h2
+  simp only [List.zip_cons_cons, List.zip_nil_right] at h2
+  cases h2 with
+  | cons r1 _ =>
+    obtain ⟨k1, hk1, rv1⟩ := r1
+    rw [hko] at hk1; cases hk1
+    exact rv_float rv1
+
 /-- Dekker's product on bit patterns, generic form: a program `p` with all-float kinds whose ℚ-run on
 normal operands is (RN(xy), xy − RN(xy)) for every round-to-nearest of the format's precision. -/
 theorem dekker_bits_of (p : Prog) (hf : WF p.fmt) (kinds : List Bool) (hk : kindsOf p.nodes [] = some kinds)
